@@ -223,6 +223,16 @@ def judgeParse (cfg : ParseCfg) (cid : String) (o : Op) (hs : HState) (out : Out
       let implToks := ((o.first "pltoks").getD []).map toInt
       let modelToks := rr.pl.map fun s => match s.tok with | some k => Int.ofNat k | none => -1
       out := out.v cid o.n "C07" "D" (implToks == modelToks) s!"token numbers of the parse list: impl={implToks} model={modelToks}"
+  -- deep tie of the lookahead sets of all items (static at level 1, dynamic at level 2)
+  if la ≥ 1 && (sentence || recOff) && !(o.get "la").isEmpty && n ≤ 60 then
+    let an := g.analysis
+    let fmt := fun (r d i : Nat) (ts : List Nat) => s!"{r},{d},{i}=" ++ String.join ((normSet ts).map fun t => s!"{t}.")
+    let modelLa : List (List String) :=
+      if la == 1 then pl.map fun s => strSet (s.map fun it => fmt it.rule it.dot it.origin (laSet g an it.rule it.dot))
+      else (buildPL2 g w).2.map fun s => strSet (s.map fun it => fmt it.rule it.dot it.origin (la2 g an it.rule it.dot it.ctx))
+    let implLa := (o.get "la").map fun ws => strSet (ws.drop 1)
+    out := out.v cid o.n "C09" "D" (implLa == modelLa)
+      (if implLa == modelLa then s!"lookahead sets of {modelLa.length} sets" else s!"lookahead sets differ at level {la}: model={modelLa} impl={implLa}")
   -- deep tie at level 2 (dynamic lookahead): items projected to (rule, dot, origin)
   if la == 2 && (sentence || recOff) && !(o.get "set").isEmpty && n ≤ 60 then
     let (err2, pl2) := buildPL2 g w
